@@ -17,7 +17,7 @@ RULE = ('exhaustive: all 24 neighbour orderings x {4 heavy neighbours, implicit 
         'unequal; labels on non-stereogenic centres dropped after edits; one forced label at a time on unlabelled corpus / spiro / '
         'assembly structures kept exactly when an own constitutional verdict says stereogenic; families with verdicts by construction: ring atom opposite a '
         'gem-disubstituted ring atom (equal / unlike groups, chains and rings), double bond with one end in a ring (chiral axis of alkylidene rings kept under '
-        'renumbering, two equal groups outside never labelled); monitors: counting dicts replace the two permutation '
+        'renumbering, two equal groups outside never labelled), isolated double bond in a ring of 8-12 atoms (64 E/Z pairs: label kept, E != Z, RDKit reads the written marks as the source); monitors: counting dicts replace the two permutation '
         'tables and every key must be looked up; non-trivial = molecule with >= 2 stereo elements or a ring stereocentre, '
         'distinct by (canonical string, spelling/order)')
 ASSUMPTIONS = ['CachedMethods compatibility shim', 'RDKit as independent reader of SMILES marks and wedge bonds (carbon '
